@@ -5,6 +5,7 @@ import enum
 from typing import Dict, List
 import operator
 import pathlib
+import re
 import warnings
 
 
@@ -777,7 +778,10 @@ def _data_path_args_to_json_like(spec_val, _depth=0):
         return spec_val.to_spec()
 
     elif isinstance(spec_val, dict):
-        if any(isinstance(k, str) and "\\path" in k for k in spec_val) or (
+        if any(
+            isinstance(k, str) and re.search(r"\\path", k, flags=re.IGNORECASE)
+            for k in spec_val
+        ) or (
             len(spec_val) == 1
             and all(
                 isinstance(k, str) and k.lower().split(".")[0] == "path"
@@ -785,7 +789,11 @@ def _data_path_args_to_json_like(spec_val, _depth=0):
             )
         ):
             return {
-                (k.replace("path", "\\path") if isinstance(k, str) else k): v
+                (
+                    re.sub(r"(path)", r"\\\1", k, flags=re.IGNORECASE)
+                    if isinstance(k, str)
+                    else k
+                ): v
                 for k, v in spec_val.items()
             }
         elif _depth == 0:
